@@ -16,7 +16,7 @@ hold.  Bounds: boundsconstrain(lo, hi) (symbolic and impose_bounds paths) agains
 Nothing about the expected outcome is computed in Python: the harness compares floats with the
 integers TLC printed.
 """
-import sys, random
+import sys, random, io, contextlib
 from harness.core import Check, tier_seed, assert_repo, main_guard
 from harness.tlc import TLCError
 from harness import linrel_common as L
@@ -51,11 +51,7 @@ def new_check(a):
 
 def gather(a):
     """all TLC runs of the tier; returns [(name, hdr, cases, results)]"""
-    out = []
-    for name, mod, cfg, parts in RUNS[a.tier]:
-        hdr, cases, res = L.run_parts(mod, cfg, parts=parts, jobs=a.jobs, timeout=6000)
-        out.append((name, hdr, cases, res))
-    return out
+    return L.run_many(RUNS[a.tier], jobs=a.jobs)
 
 
 class Compiler(object):
@@ -74,7 +70,9 @@ class Compiler(object):
         return c
 
 
-def replay_relations(ck, ms, name, hdr, cases, a, corrupt=False):
+def replay_relations(ck, chunk):
+    import mystic.symbolic as ms
+    name, hdr, a, corrupt, (start, cases) = chunk
     n = hdr["n"]
     rels = hdr["rels"]
     hs = {op: set(v) for op, v in hdr["hs"].items()}
@@ -87,7 +85,7 @@ def replay_relations(ck, ms, name, hdr, cases, a, corrupt=False):
     rng = random.Random(a.seed)
     rot = rng.randrange(1000)
     sampled = 0
-    for idx, c in enumerate(cases):
+    for idx, c in enumerate(cases, start):
         s = c["s"]
         recs = [rels[k - 1] for k in s]
         x, r, f, g, ch = c["x"], c["r"], c["f"], [set(t) for t in c["g"]], set(c["ch"])
@@ -111,6 +109,7 @@ def replay_relations(ck, ms, name, hdr, cases, a, corrupt=False):
             ck.case(nontrivial=(not all(f)) or boundary, key=(name, tuple(s), tuple(x)))
             detail = {"run": name, "text": text, "variables": sch.variables, "nvars": sch.dim, "locals": loc,
                       "scheme": sch.name, "input_kind": kind, "spec_point": x, "scale": S,
+                      "lhs_positions": [sch.pos[rc["i"] - 1] for rc in recs], "ops": [rc["op"] for rc in recs],
                       "expected": {"rhs": r, "feasible": f, "allowed_signs": [sorted(t) for t in g], "may_change": sorted(ch)}}
             kindtag = "+".join(sorted(set(rc["kind"] for rc in recs)))
             try:
@@ -133,7 +132,11 @@ def replay_relations(ck, ms, name, hdr, cases, a, corrupt=False):
                 stepwise_same = all(bool(p == q) for p, q in zip(list(z), list(y))) and len(z) == len(y)
             except Exception as ex:
                 detail["error"] = repr(ex)
-                ck.violation("%s:raises:%s:scheme=%s:kind=%s" % (name, type(ex).__name__, sch.name.split("*")[0], kindtag), detail,
+                if any(nm in "abs" for nm in sch.names) and "abs(" in text:
+                    vkey = "name-collision:variable-name-inside-abs:raises:%s" % type(ex).__name__
+                else:
+                    vkey = "%s:raises:%s:scheme=%s:kind=%s" % (name, type(ex).__name__, sch.name.split("*")[0], kindtag)
+                ck.violation(vkey, detail,
                              "%r (variables=%r) at %r raised %r" % (text, sch.variables, x, ex))
                 continue
             detail["output"] = list(y)
@@ -176,8 +179,10 @@ def bound_value(v, hdr, alt):
     return float(v)
 
 
-def replay_boxes(ck, mc, name, hdr, cases, a, corrupt=False):
+def replay_boxes(ck, chunk):
     """boundsconstrain(lo, hi): symbolic and impose_bounds paths, plain and embedded in 12 variables"""
+    import mystic.constraints as mc
+    name, hdr, a, corrupt, (start, cases) = chunk
     boxes = hdr["boxes"]
     n = hdr["n"]
     NINF, PINF = hdr["ninf"], hdr["pinf"]
@@ -204,14 +209,15 @@ def replay_boxes(ck, mc, name, hdr, cases, a, corrupt=False):
                     LO[p], HI[p] = lo[j], hi[j]
                 lo, hi = LO, HI
             try:
-                fn = mc.boundsconstrain(list(lo), list(hi), symbolic=(path == "symbolic"))
+                with contextlib.redirect_stdout(io.StringIO()):        # mystic prints diagnostics
+                    fn = mc.boundsconstrain(list(lo), list(hi), symbolic=(path == "symbolic"))
                 built[key] = (fn, None, lo, hi)
             except Exception as ex:
                 built[key] = (None, ex, lo, hi)
         return built[key]
 
     sampled = 0
-    for ci, c in enumerate(cases):
+    for ci, c in enumerate(cases, start):
         x = c["x"]
         inb = set(c["inb"])
         for bi, b in enumerate(boxes):
@@ -264,12 +270,12 @@ def replay_boxes(ck, mc, name, hdr, cases, a, corrupt=False):
         ck.trace()
 
 
-def explore(ck, a, runs, corrupt=False, only=None):
+def explore(ck, a, runs, corrupt=False, only=None, stride=1):
     import warnings
     warnings.simplefilter("ignore")
     import mystic.symbolic as ms
     import mystic.constraints as mc
-    ck.exhaustive = True
+    ck.exhaustive = stride == 1
     for name, hdr, cases, res in runs:
         bad = L.first_violation(res)
         if bad is not None:
@@ -277,10 +283,10 @@ def explore(ck, a, runs, corrupt=False, only=None):
         ck.mc(L.merged(res), "LinRel/" + name)
         if only and name not in only:
             continue
-        if name == "box":
-            replay_boxes(ck, mc, name, hdr, cases, a, corrupt)
-        else:
-            replay_relations(ck, ms, name, hdr, cases, a, corrupt)
+        if stride > 1 and name != "box":
+            cases = cases[::stride]
+        chunks = [(name, hdr, a, corrupt, sl) for sl in L.chunked(cases, 4 * a.jobs if len(cases) > 2000 else 1)]
+        L.parallel_replay(ck, replay_boxes if name == "box" else replay_relations, chunks, a.jobs)
     ck.assumptions = [
         "inputs are integer vectors (times a power of two for the huge-magnitude schemes) and coefficients small integers, so "
         "IEEE arithmetic of the generated code is exact and a float can be compared with the integer TLC printed",
@@ -305,7 +311,7 @@ def selftest(a, runs):
     ck = new_check(a)
     ck.outdir = "/dev/shm/verif_selftest_C13"
     with contextlib.redirect_stdout(io.StringIO()):
-        explore(ck, a, runs, only=["single", "pair", "box"])
+        explore(ck, a, runs, only=["single", "pair", "box"], stride=3)
     BASELINE_KEYS = set(ck.viol_keys)
     orig_cp, orig_rv, orig_tol, orig_ib, orig_gc = ms.constraints_parser, ms.replace_variables, mm.tolerance, mc.impose_bounds, ms.generate_constraint
 
@@ -380,6 +386,11 @@ def selftest(a, runs):
                ("boundsconstrain clips to the far bound", m_bounds_far, ["box"]),
                ("corrupted expectation from TLC", lambda: None, "corrupt")]
     missed = 0
+    from harness.tlc import run_tlc
+    rneg = run_tlc("sym/MC_LinRelSys", cfg="MC_LinRelSys_neg.cfg", workers=1)
+    okneg = rneg.violated == "DependentAlsoHold"
+    print("SELFTEST spec negative control (lines that feed one another: TLC must refute 'all lines hold'): %s" % ("caught" if okneg else "MISSED"))
+    missed += 0 if okneg else 1
     for nm, mut, mode in mutants:
         mut()
         ck = new_check(a)
@@ -387,7 +398,7 @@ def selftest(a, runs):
         buf = io.StringIO()
         with contextlib.redirect_stdout(buf):
             try:
-                explore(ck, a, runs, corrupt=(mode == "corrupt"), only=(mode if isinstance(mode, list) else ["single", "pair", "box"]))
+                explore(ck, a, runs, corrupt=(mode == "corrupt"), only=(mode if isinstance(mode, list) else ["single", "pair", "box"]), stride=3)
             except Exception as ex:
                 print("mutant raised", repr(ex))
                 ck.violations += 1
@@ -403,13 +414,50 @@ def selftest(a, runs):
     return 1 if missed else 0
 
 
+def replay_artefact(path):
+    """bin/check C13 --replay out/C13/replay_*.json : run the recorded case again on the current tree"""
+    import json, warnings
+    warnings.simplefilter("ignore")
+    import mystic.symbolic as ms
+    import mystic.constraints as mc
+    d = json.load(open(path))["detail"]
+    if "min" in d:
+        fn = mc.boundsconstrain(list(d["min"]), list(d["max"]), symbolic=(d["path"] == "symbolic"))
+        y = list(fn(list(d["input"])))
+        exp = d["expected_clip"]
+        got = [y[1], y[10]] if len(y) == 12 else y
+        ok = all(p == q for p, q in zip(got, exp))
+        print("boundsconstrain(%r, %r, symbolic=%s)(%r) = %r; Clip = %r" % (d["min"], d["max"], d["path"] == "symbolic", d["input"], y, exp))
+    else:
+        cons = ms.generate_constraint(ms.generate_solvers(d["text"], variables=d["variables"], nvars=d["nvars"], locals=dict(d["locals"])))
+        x = list(d["input"])
+        y = list(cons(list(x)))
+        e, S = d["expected"], d["scale"]
+        spec_pos = d["lhs_positions"]
+        may = set(spec_pos[k] for k in range(len(spec_pos)) if not e["feasible"][k])
+        ok = all(y[j] == x[j] or j in may for j in range(len(x)))
+        for p, r, al in zip(spec_pos, e["rhs"], e["allowed_signs"]):
+            ok = ok and sgn(y[p] - r * S) in al
+        print("%r (variables=%r): %r -> %r; rhs %r, allowed signs of y_i - rhs %r" % (d["text"], d["variables"], x, y, e["rhs"], e["allowed_signs"]))
+    print("replay: %s" % ("property holds on this case now" if ok else "VIOLATION reproduced"))
+    return 0 if ok else 1
+
+
 def main():
     a = tier_seed()
     assert_repo()
+    if a.replay:
+        try:
+            return replay_artefact(a.replay)
+        except (KeyError, OSError, ValueError):
+            raise                                   # unreadable artefact: machinery failure
+        except Exception as ex:                     # mystic raised on the recorded case
+            print("replay: VIOLATION reproduced (%r)" % ex)
+            return 1
+    ck = new_check(a)
     runs = gather(a)
     if a.selftest:
         return selftest(a, runs)
-    ck = new_check(a)
     explore(ck, a, runs)
     return ck.finish()
 
